@@ -15,6 +15,7 @@ mod mon_c03;
 mod normref;
 mod mon_c04;
 mod mon_c05;
+mod mon_c06;
 mod mon_c07;
 mod mon_c08;
 mod mon_c12;
@@ -126,6 +127,7 @@ fn main() {
         "C01" => mon_c01::run(&ctx, &mut rep),
         "C02" => mon_c02::run(&ctx, &mut rep),
         "C17" => mon_c17::run(&ctx, &mut rep),
+        "C06" => mon_c06::run(&ctx, &mut rep),
         "C20" => mon_c20::run(&ctx, &mut rep),
         "C12" => mon_c12::run(&ctx, &mut rep),
         "C09" => mon_c09::run(&ctx, &mut rep),
